@@ -157,5 +157,5 @@ def space(tier):
                 op["lat"] = rng.choice([0.05, 1.0, 1.9])
             ops.append(op)
         return {"config": {"version": 2, "device_id": rand_id(rng), "epoch": ep}, "ops": ops}
-    sp.add("random", 6000 if tier == "quick" else 600_000, rnd)
+    sp.add("random", 20000 if tier == "quick" else 600_000, rnd)
     return sp
